@@ -15,14 +15,18 @@ TT = float(1 << 32)
 
 
 def close(a, b, rel=REL, abs_=1e-12):
+    if a == b:          # also equal infinities
+        return True
     return abs(a - b) <= rel * max(abs(a), abs(b)) + abs_
 
 
-def close32(got, exp):
+def _close32(got, exp):
     """got was read back from an OSC float32 slot: compare with the float32
     rounding of the model value; the 1e-9 relative slack of the chain may move
     the double across one float32 rounding boundary, hence one float32 ulp."""
     e = osc.f32(exp)
+    if got == e:
+        return True
     return abs(got - e) <= abs(e) * 2.0 ** -23 + 1e-9 * abs(e) + 1e-30
 
 
@@ -97,8 +101,10 @@ def to_value(v, groups=None):
     from sc3.seq.event import Rest
     if me.is_rest_value(v):
         return Rest(v['rest'])
-    if v == 'groupobj':
+    if isinstance(v, str) and v == 'groupobj':
         return groups['obj']
+    if isinstance(v, str) and v == 'inf':
+        return float('inf')
     return v
 
 
@@ -182,7 +188,12 @@ def collect(cap):
     """main.process() -> decoded bundles; always resets afterwards."""
     from sc3.base.main import main
     try:
-        sc = main.process()
+        try:
+            sc = main.process()
+        except Exception as e:      # noqa: a verdict, not a harness failure
+            cap.raised = cap.raised or e
+            cap.extra['raised_in'] = 'main.process'
+            return
         cap.elapsed = main.elapsed_time()
         raw = bytes(sc.raw)
         i = 0
@@ -373,7 +384,9 @@ class Expect:
 def expect_note(ev, t, latency, info, groups, kind='note', mono=None):
     res = me.resolve(ev)
     inst = mono[1] if mono else ev.get('instrument', 'default')
-    ii = info[inst]
+    # a definition the library has no description of: Event help - the
+    # default parameters freq, amp, pan, out are sent and a gate is assumed
+    ii = info.get(inst) or {'controls': None, 'gate': None, 'variants': False}
     name = inst
     if ev.get('variant') is not None and ii['variants']:
         name = f"{inst}.{ev['variant']}"
@@ -386,7 +399,9 @@ def expect_note(ev, t, latency, info, groups, kind='note', mono=None):
         'group': grp, 'ev': ev, 'res': res, 'kind': kind,
         'mono': mono[0] if mono else None,
         'gate_time': (t + latency + res.sustain
-                      if ii['gate'] and kind == 'note' else None),
+                      if ii['gate'] is not False and kind == 'note'
+                      and res.sustain != me.INF else None),
+        'gate_optional': ii['gate'] is None,
     }
 
 
@@ -407,17 +422,22 @@ def case_timelines(case, start):
     pat = me.expand(case['pattern'], case.get('shared') or {})
     if not case.get('plays'):
         tl = me.timeline(pat)
-        return [(start, tl)], start + tl.total
-    out, total = [], 0.0
+        return [(start, tl)], (start + tl.total, None)
+    out, total, upper = [], 0.0, 0.0
     for pl in case['plays']:
         tl = me.timeline(pat)
         if pl.get('stop') is not None:
             tl = me.stopped(tl, pl['stop'] - pl['at'])
-            total = None        # a stopped player leaves a pending wake-up
-        elif total is not None:
+            # the player ran until the stop (the stopping routine woke then);
+            # the wake-up that was pending may still happen, not later than
+            # the next element of the stopped player
+            total = max(total, pl['stop'])
+            upper = max(upper, pl['stop'], pl['at'] + (tl.pending_wake or 0))
+        else:
             total = max(total, pl['at'] + tl.total)
         out.append((pl['at'], tl))
-    return out, total
+    upper = max(upper, total)
+    return out, (total, upper if upper > total else None)
 
 
 def expect_timeline(case, start, info, groups):
@@ -448,7 +468,7 @@ def expect_timeline(case, start, info, groups):
             if m in monos:
                 ex.releases.append({'mono': m, 'time': st + t + L,
                                     'exact': exact})
-    ex.total = total
+    ex.total, ex.total_upper = total
     ex.tl = tls[0][1]
     ex.tls = tls
     return ex
@@ -529,7 +549,18 @@ def compare(ex, cap, acc, mon, offgrid=False):
                          'sent': r['args'], 't': r['t']}))
             continue
         cand = by_tag.get(n['tag'], [])
-        if mult[n['tag']] > 1:
+        if n['desc']['controls'] is None:
+            # no description, hence no tag control: attributed by the name of
+            # the (never described) definition and the time
+            r = next((c for c in rows if c['addr'] == '/s_new'
+                      and not c['used'] and c['args'][:1] == [n['inst']]
+                      and ttol(c['t'], n['time'])), None)
+            if r is None:
+                bad.append(('missing-s_new/undescribed-instrument',
+                            {'tag': n['tag'], 'expected_at': n['time']}))
+                continue
+            r['used'] = True
+        elif mult[n['tag']] > 1:
             # the same event of the same pattern object in several embeddings:
             # equal expectations except for the time, so match by time
             r = next((c for c in cand if not c['used']
@@ -583,6 +614,9 @@ def compare(ex, cap, acc, mon, offgrid=False):
                 and r['args'][:1] == [n['id']]
                 and r['args'][1:] == ['gate', 0]]
         if n['kind'] == 'note':
+            if n.get('gate_optional') and not offs:
+                acc.count(f'{mon}_nodesc_checked')
+                continue
             if n['gate_time'] is None:
                 if offs:
                     for r in offs:
@@ -671,7 +705,14 @@ def compare(ex, cap, acc, mon, offgrid=False):
                             {'t': r['t'], 'args': r['args']}))
     if ex.total is not None:
         acc.count(f'{mon}_total_duration_checked')
-        if not close(cap.elapsed, ex.total, 1e-9, 1e-9):
+        upper = getattr(ex, 'total_upper', None)
+        if upper is not None:
+            # stopped players: their pending wake-up may still advance time
+            acc.count(f'{mon}_total_duration_bounded')
+            if not (ex.total - 1e-9 <= cap.elapsed <= upper + 1e-9):
+                bad.append(('total-duration', {'got': cap.elapsed,
+                                               'expected': [ex.total, upper]}))
+        elif not close(cap.elapsed, ex.total, 1e-9, 1e-9):
             bad.append(('total-duration', {'got': cap.elapsed,
                                            'expected': ex.total}))
     return bad
@@ -681,11 +722,27 @@ def mon_name(mon):
     return {'tl': 'timeline'}.get(mon, mon)
 
 
+def _pitch_class(res, ev):
+    """Input classes of the pitch chain that get one key each, whichever
+    monitor or look-up meets them."""
+    if 'freq' in ev or 'midinote' in ev or 'note' in ev:
+        return None
+    d = me.num(ev.get('degree', 0)) + me.num(ev.get('mtranspose', 0))
+    if d != int(d):
+        return 'fractional-degree-accidental'
+    if me.num(ev.get('ctranspose', 0)) != 0:
+        return 'ctranspose-with-degree-source'
+    return None
+
+
 def pitch_key(prefix, key, res, ev):
     """Mechanism key of a pitch difference.  With an explicit scale object the
     key is the tuning kind only (whatever monitor, source key or look-up met
     it: these are defects of the scale/tuning handling); otherwise monitor,
     looked-up key and source key."""
+    cls = _pitch_class(res, ev)
+    if cls:
+        return f'C14/pitch-differs/{cls}'
     kind = (ev.get('scale') or {}).get('kind')
     if kind is not None and res.pitch_source in ('degree', 'note', 'default'):
         return f'C14/pitch-differs-with-explicit-scale/{kind}'
@@ -700,6 +757,9 @@ def _compare_controls(n, args, largs, acc, mon, what):
         return [(f'{what}-args-not-pairs', {'args': args})]
     names = [p[0] for p in pr]
     ctl = n['desc']['controls']
+    required = ctl
+    if ctl is None:     # no description: only the documented default parameters
+        ctl, required = ['freq', 'amp', 'pan', 'out'], []
     ev, res = n['ev'], n['res']
     for name in names:
         if names.count(name) > 1:
@@ -724,9 +784,13 @@ def _compare_controls(n, args, largs, acc, mon, what):
             bad.append((f'control-value-type/{what}', {'name': name}))
             continue
         ok64 = close(float(v64), float(exp))
-        ok32 = (v32 == exp or close32(float(v32), float(exp)))
+        ok32 = (v32 == exp or _close32(float(v32), float(exp)))
         if not (ok64 and ok32):
-            if name == 'freq':
+            if name == 'freq' and n.get('prev_tags') and not \
+                    _pitch_class(res, ev):
+                # an object that was played before: pitch not resolved anew
+                key = 'C14/play/replayed-event-pitch-not-resolved-anew'
+            elif name == 'freq':
                 key = pitch_key(f'{mon_name(mon)}/control-value/{what}', 'freq',
                                 res, ev)
             else:
@@ -734,7 +798,7 @@ def _compare_controls(n, args, largs, acc, mon, what):
                        f'{_name_class(name)}')
             bad.append((key, {'name': name, 'got_list': v64, 'got_raw': v32,
                               'expected': exp, 'event': ev}))
-    for name in ctl:
+    for name in required:
         if name in ('gate',):
             continue
         mode, exp = me.control_value(ev, res, name)
